@@ -253,12 +253,14 @@ for sh_ in SHARDS:
         _split.append(sh_)
 SHARDS = _split
 QUICK = [i for i, s in enumerate(SHARDS) if (s["eng"] in ("univ",) and s["tn"] == 0) or (s["eng"] in ("seq", "cook") and s["tmpl"] == "T05") or (s["eng"] == "init" and s["tmpl"] == "T03") or (s["eng"] in ("plain_seq", "ov") and s["tmpl"] in ("T03", "T02")) or (s["eng"] == "cdt" and s["tmpl"] == "T11" and s.get("which") == 3) or (s["tmpl"] in ("T08", "T14") and s.get("which") == 2 and s.get("nlen", 1) == 1)
-         or (s["tmpl"] in ("T03", "T10", "T12") and s["eng"] == "plain" and s["tn"] == 0)]
+         or (s["tmpl"] in ("T03", "T10", "T12") and s["eng"] == "plain" and s["tn"] == 0) or (s["tmpl"] in ("T03", "T05") and s["eng"] == "plain" and s["tn"] == 1)]
 
 
 @obligation(tier="quick", timeout=240, shards=SHARDS, quick_shards=QUICK,
             samples=[{"s": False, "i": True, "t1": True, "t2": False, "t3": True, "n": 5, "m": 2, "flag": None, "st": "x", "v": 3, "nlen": 2},
-                     {"s": True, "i": False, "t1": False, "t2": True, "t3": False, "n": None, "m": 2**31, "flag": True, "st": "", "v": None, "nlen": 1}],
+                     {"s": True, "i": False, "t1": False, "t2": True, "t3": False, "n": None, "m": 2**31, "flag": True, "st": "", "v": None, "nlen": 1},
+                     {"s": False, "i": False, "t1": True, "t2": True, "t3": False, "n": 0, "m": 0, "flag": False, "st": "", "v": 0, "nlen": 2},
+                     {"s": True, "i": True, "t1": False, "t2": False, "t3": True, "n": -2**31, "m": -2**31, "flag": False, "st": "0", "v": -1, "nlen": 0}],
             symbolic=["n: Optional[int] (unbounded)", "m: int (unbounded)", "flag: Optional[bool]", "st: str (all strings)", "v: Optional[int]",
                       "s, i: bool via real variable coercion and the real @skip/@include hooks"],
             selectors=["t1,t2,t3: runtime type of node/u/nodes", "nlen: list length 0..2", "shard: template, engine kind, type-naming way, operation name"],
